@@ -8,6 +8,10 @@ mod c11;
 mod c12a;
 mod c13;
 mod probe;
+/// scripted transport / probe behaviour / SwarmSys of the whole-Swarm family (shared source)
+#[allow(dead_code, unused_imports)]
+#[path = "../../f_swarm/src/sys.rs"]
+mod sys;
 
 fn main() {
     mc::main_dispatch(&[("C03", c03::run, c03::META), ("C08", c08::run, c08::META), ("C09", c09::run, c09::META), ("C10", c10::run, c10::META), ("C11", c11::run, c11::META), ("C12A", c12a::run, c12a::META), ("C13", c13::run, c13::META)]);
